@@ -32,3 +32,8 @@ for sid in ids:
     sh("git -C /repo checkout -- .")
     print(sid, res[sid]["verdict"][:120], flush=True)
     json.dump(res, open(rp, "w"), indent=1, sort_keys=True)
+# the runs above wrote evidence of mutated trees: rewrite it from the restored tree
+for prop in sorted({sid[:3] for sid in ids}):
+    r = sh(f"cd {ROOT} && ./check {prop}")
+    last = [l for l in r.stdout.strip().split("\n") if l.startswith(("OK", "VIOLATION", "CHECK-BROKEN"))]
+    print("restored", prop, (last[-1] if last else r.stdout[-200:])[:100], flush=True)
